@@ -46,7 +46,7 @@ def run(a):
                 c.cov["input_distribution"] = st
                 m = c.run_model(exe, ops)
                 if m:
-                    c.diff(ops, impl, m, stateful=True, hbin=hbin, exe=exe)
+                    c.diff(ops, impl, m, stateful=True, hbin=hbin, exe=exe, prefer_property=True)
                     c.cov["programs"] = 1
                     c.cov["exhaustive"] = False
         c.prove("ClientGoVerif.Props.C18")
@@ -78,5 +78,5 @@ def replay(a):
         if m:
             for o, i, mm in zip(open(ops).read().splitlines(), open(impl).read().splitlines(), open(m).read().splitlines()):
                 print(f"{o}\n   impl : {i}\n   model: {mm}")
-            c.diff(ops, impl, m, stateful=True, hbin=hbin, exe=exe)
+            c.diff(ops, impl, m, stateful=True, hbin=hbin, exe=exe, prefer_property=True)
     return c.finish()
